@@ -174,6 +174,18 @@ CHECKS = {
         "note": "trusted: our pcapng/pcap writer (mc/model/pcapio.py); instants are multiples of 1/8 s so all resolutions are exact",
         "technique": "deviation-bounded (k<=2) exhaustive enumeration with a byte-identity oracle",
     },
+    "C18": {
+        "category": "exploration",
+        "text": "Fresh-process runs of the real command line for 8 scenarios (QUIC with zero-length, prefix-related and "
+                "NEW_CONNECTION_ID-issued connection IDs, two QUIC connections, TLS, mixed): one run per iteration order of the "
+                "connection-ID set that any PYTHONHASHSEED in the scanned range realises (witness seeds), x 3 working directories x "
+                "5 environments; and all 64 ordered pairs run(A);run(B) in one interpreter without state restoration, compared "
+                "with a fresh run(B). Oracle: equal sha256 / equal bytes.",
+        "design_ref": "DESIGN.md section 5, C18",
+        "note": "trusted: the claim that set iteration order of connection IDs is the only hash-seed dependent seam (argued from the "
+                "source: no other set/dict-order dependent iteration); orders not realised by any scanned seed are not covered",
+        "technique": "exhaustive enumeration of induced iteration orders (witness hash seeds), environments and run pairs",
+    },
 }
 
 NOT_YET = "check not built yet in this round (planned: bounded exhaustive exploration, see DESIGN.md section 5)"
